@@ -1296,6 +1296,13 @@ export = isStr;
 class Sq extends Shape { sides = 4; constructor(private s: number) { super(); } area() { return this.s ** 2; } get name() { return "sq"; } }
 export default abstract class Base { abstract run(): void; }
 '''),
+    ("ft_legacy_module.ts", '''module Legacy {
+  export const made = create(1);
+  console.log(made);
+  export function create(n: number) { return n; }
+}
+declare module "ambient-only" { export function g(x: number): string; }
+'''),
     ("ft_optional_catch.ts", '''let n = 0;
 try { throw new Error("x"); } catch { n = 0; } finally { n = 1; }
 try { n++; } catch (e: unknown) { if (e instanceof Error) n--; }
